@@ -79,6 +79,7 @@ EXC = {
     'OSError': OSError, 'TypeError': TypeError,
     'Unicode': UnicodeDecodeError, 'Runtime': RuntimeError,
     'Recursion': RecursionError, 'Stop': StopIteration,
+    'Syntax': SyntaxError, 'Indent': IndentationError,
 }
 
 
@@ -133,6 +134,10 @@ def mkexc(name, msg):
         return e
     if name == 'Unicode':
         return UnicodeDecodeError('utf-8', b'\xff', 0, 1, msg)
+    if name in ('Syntax', 'Indent'):
+        # as raised by compile()/import: the traceback gets a  File "x", line N
+        # line without ", in <function>"
+        return EXC[name](msg, ('generated.py', 3, 7, 'def broken(:\n', 3, 8))
     if name == 'SystemExit':
         return SystemExit(3)
     return EXC[name](msg)
